@@ -1,30 +1,132 @@
 from vlib.spec import chx, pyob
 
-EXPLANATION = ("CrossHair symbolic execution (z3) of the real HTTP storage client and server code against the real Foolscap-side adapters, both on the real "
-               "StorageServer over an in-memory file system; transport, header text and CBOR replaced by structure-preserving stand-ins.")
-ASSUMPTIONS = []
+EXPLANATION = ("CrossHair symbolic execution (z3) of the real HTTP storage client (storage/http_client.py, the _HTTPStorageServer adapter of storage_client.py) "
+               "wired by a loopback transport to the real HTTP storage server routes (storage/http_server.py), compared operation by operation with the real "
+               "Foolscap-side adapters (_StorageServer -> FoolscapStorageServer / FoolscapBucketWriter / FoolscapBucketReader); both end in the real StorageServer, "
+               "BucketWriter, BucketReader, ShareFile and MutableShareFile on an in-memory file system whose contents are provenance runs with symbolic offsets.  "
+               "Header text and CBOR are carried by structure-preserving stand-ins so that offsets, lengths and share sizes stay symbolic; the stand-ins are tied to "
+               "real werkzeug / cbor2 / pycddl by differential tests and by obligations that run the untouched text path on small integers.")
+ASSUMPTIONS = [
+    "PARTIAL CLAIM.  Decided: one IStorageServer operation (or a 1-3 chunk upload history) from an arbitrary consistent server state gives the same client-visible "
+    "result and the same file-system state through the HTTP path and through the direct (Foolscap-adapter) path.  Not decided: arbitrary long operation histories, "
+    "concurrency between clients, aborts / timeouts / disconnects (C22), advise_corrupt_share, get_version, TLS / NURL / authorization headers (C30), "
+    "real HTTP framing (treq, twisted.web, Klein request rendering), real CBOR bytes (cbor2 / pycddl are C extensions)",
+    "transport: Loopback.request (harness/_httploop.py) stands for treq + TLS + TCP + twisted.web + KleinResource.render: it hands the client's real Headers object, "
+    "method, URL path and body to the endpoint found by the REAL Klein/werkzeug url map of HTTPServer, runs the real authorization decorator, the real registered error "
+    "handlers, drives pull producers until they unregister, and returns status, the real response Headers object and the written body pieces",
+    "header text: werkzeug Range / ContentRange / parse_range_header / parse_content_range_header are stand-ins in the namespaces of http_client and http_server: "
+    "to_header() is a concrete placeholder string (it travels through the real twisted Headers), parsing looks the symbolic integers up again; the validity rules of the "
+    "werkzeug classes (Range rejects start >= end, ContentRange asserts is_byte_range_valid, the parsers return None for empty ranges) are re-stated and checked "
+    "against real werkzeug for all small values at import and by the *_strings obligations on the untouched text path",
+    "CBOR: cbor2.dumps/dump give, and pycddl Schema.validate_cbor takes, a token holding a normalised deep copy (tuple -> list, set stays set); the CDDL schemas are "
+    "re-stated as validators (differentially tested against real cbor2 + pycddl on 20 accept/reject samples at import)",
+    "share data is provenance (source tag, source offset) with a universally quantified probe position: two byte strings are equal iff they have the same length and "
+    "the same provenance at every position; containers are arbitrary states under the representation invariants of C22/C23 (mk_immutable / mk_mutable)",
+    "upload histories: no chunk is sent after the share is complete (the HTTP server finalises the share at that moment, the Foolscap server at close(): a later "
+    "write is a client error on both, with different symptoms); close() is compared only for complete uploads (Foolscap's close() of an incomplete upload finalises a "
+    "short share, the HTTP adapter's close() waits for completion: documented protocol difference)",
+    "a wrong write enabler surfaces as BadWriteEnablerError on the direct path and as RemoteException on the HTTP path (what a real Foolscap caller sees is a "
+    "RemoteException too); both count as the same outcome",
+    "eliot actions are no-ops, defer_to_thread runs inline, twisted.web.http is a plain namespace of its constants, os.urandom (upload secret) and the clock are constant, "
+    "log sinks are dropped; f-string error messages that format integers are not formatted (message text only); CrossHair's optional short-circuiting of repr() is off",
+    "collections_extended.RangeMap is the stand-in from /verif/shims (the real package is absent from the image)",
+]
 T = {"quick": 120, "thorough": 900}
 K = 65536
+BIG = {"quick": 2**40, "thorough": 2**62}
+
+
+def _b(**kw):
+    """bounds per tier: scalars apply to both tiers, (quick, thorough) tuples are split"""
+    out = {"quick": {"size_max": BIG["quick"]}, "thorough": {"size_max": BIG["thorough"]}}
+    for (k, v) in kw.items():
+        if isinstance(v, tuple):
+            out["quick"][k], out["thorough"][k] = v
+        else:
+            out["quick"][k] = out["thorough"][k] = v
+    return out
+
+
+_SOURCES = ((0, "same-source"), (1, "other-source"))
+_SHAPES = ((0, "before"), (2, "after"), (10, "covers-start"), (11, "covers-all"), (12, "inside"), (13, "covers-end"))
+
 OBLIGATIONS = [
-    chx("read_immutable", "C31_h", "h_read_immutable", timeout=T,
-        bounds={"quick": {"size_max": 2**40, "ln_min": 1, "ln_max": 2 * K}, "thorough": {"size_max": 2**62, "ln_min": 1, "ln_max": 4 * K}},
+    # ---- range reads -----------------------------------------------------------------------------------------------------
+    chx("read_immutable", "C31_h", "h_read_immutable", timeout=T, bounds=_b(ln_min=1, ln_max=(2 * K, 4 * K)),
         cases=[{"other": 0, "_label": "one-share"}, {"other": 1, "_label": "two-shares"}, {"ln_min": 0, "ln_max": 1, "_label": "length-0-or-1"}],
-        desc="..."),
-    chx("read_mutable", "C31_h", "h_read_mutable", timeout=T,
-        bounds={"quick": {"size_max": 2**40, "ln_min": 1, "ln_max": K}, "thorough": {"size_max": 2**62, "ln_min": 1, "ln_max": 2 * K}},
-        cases=[{"mode": 0, "nv": 2, "_label": "shares=[0],2-vectors"}, {"mode": 1, "nv": 1, "_label": "shares=[]"},
-               {"mode": 2, "nv": 1, "_label": "shares=[2,0]"}, {"mode": 3, "nv": 1, "_label": "shares=[0,1]"},
-               {"mode": 0, "nv": 1, "ln_min": 0, "ln_max": 1, "_label": "length-0-or-1"}],
-        desc="..."),
-    chx("upload", "C31_h", "h_upload", timeout=T,
-        bounds={"quick": {"size_max": 2**40, "ln_min": 1, "ln_max": 2 * K}, "thorough": {"size_max": 2**62, "ln_min": 1, "ln_max": 3 * K}},
-        cases=[{"n": 1, "_label": "1-chunk"}, {"n": 2, "conflict": 0, "_label": "2-chunks"}, {"n": 2, "conflict": 1, "_label": "2-chunks,conflict"}],
-        desc="..."),
-    chx("rtw", "C31_h", "h_rtw", timeout=T, bounds={"quick": {"size_max": 2**40}, "thorough": {"size_max": 2**62}},
-        cases=[{"nlkind": k, "good_we": 1, "_label": "new-length-%s" % n} for (k, n) in ((0, "none"), (1, "0"), (2, "n"))]
-              + [{"nlkind": 0, "good_we": 0, "_label": "bad-enabler"}],
-        desc="..."),
-    chx("list_lease", "C31_h", "h_list_lease", timeout=T, bounds={"quick": {"size_max": 2**40}, "thorough": {"size_max": 2**62}},
+        desc="get_buckets + read(offset, length) of an immutable share (symbolic data length <= 2^40, 1 lease, optionally a second share; offset unbounded, "
+             "1 <= length <= 2*65536 so that the server's 64 KiB producer loop runs 1-3 times) through _HTTPStorageServer.get_buckets / _HTTPBucketReader.read / "
+             "http_client.read_share_chunk / HTTPServer.list_shares + read_share_chunk / read_range / _ReadRangeProducer versus _StorageServer.get_buckets / "
+             "FoolscapBucketReader.remote_read: same share numbers, same bytes [offset, min(offset+length, share length)) incl. empty past the end (204), no state change",
+        outside="length 0 is its own case (see report: the HTTP client raises ValueError where the direct read returns b'')"),
+    chx("read_mutable", "C31_h", "h_read_mutable", timeout=T, bounds=_b(ln_min=1, ln_max=(K, 2 * K)),
+        cases=[{"mode": 0, "nv": 1, "has2": 0, "_label": "shares=[0]"},
+               {"mode": 1, "nv": 2, "has2": 1, "dl": 100, "second": [98, 5], "_label": "shares=[],2-shares,2-vectors"},
+               {"mode": 2, "nv": 1, "has2": 1, "dl": 100, "_label": "shares=[2,0]"},
+               {"mode": 3, "nv": 1, "dl": 100, "_label": "shares=[0,1]"},
+               {"mode": 0, "nv": 1, "has2": 0, "dl": 100, "ln_min": 0, "ln_max": 1, "_label": "length-0-or-1"}],
+        desc="slot_readv(storage index, shares, read vector) on mutable containers through _HTTPStorageServer.slot_readv / StorageClientMutables.read_share_chunk + "
+             "list_shares / HTTPServer.read_mutable_chunk + enumerate_mutable_shares / read_range versus _StorageServer.slot_readv / remote_slot_readv: same share "
+             "numbers answered, per share one result per vector in order, same bytes (clipped at the data length, empty past the end); symbolic container geometry for "
+             "one share and one vector, concrete geometry with symbolic offsets for the share-list / multi-vector structure"),
+    chx("server_read_range", "C31_h", "h_server_read_range", timeout=T, bounds=_b(body_max=(3 * K, 6 * K)),
+        desc="http_server.read_range + _ReadRangeProducer / _ReadAllProducer alone on an abstract share (unbounded start, end, share length; body <= 3*65536): no Range "
+             "header -> 200 with the whole share; one closed byte range -> 206, Content-Range announcing exactly [start, min(end, share length)), body exactly those "
+             "bytes in pieces of at most 65536, 204 without reading when the range selects nothing; other unit / several ranges / open-ended / suffix / garbage -> 416 "
+             "before anything is read"),
+    chx("client_read_chunk", "C31_h", "h_client_read_chunk", timeout=T, bounds=_b(body_max=(2**40, 2**62)),
+        desc="http_client.read_share_chunk alone against canned answers (status 204/206/200/404/416/500/201 x content type right/wrong/absent x Content-Range "
+             "valid/absent/garbage/unsatisfied, symbolic announced range and body length, body in two pieces): the request is a GET of the share URL whose Range denotes "
+             "exactly [offset, offset+length); 204 -> b''; data is returned only from a 206 with application/octet-stream whose Content-Range parses, announces at most "
+             "`length` bytes and matches the body length exactly; every other answer raises (ClientException carrying the status for a wrong status)"),
+    # ---- chunked uploads -------------------------------------------------------------------------------------------------
+    chx("upload", "C31_h", "h_upload", timeout=T, bounds=_b(ln_min=1, ln_max=(K, 3 * K)),
+        cases={"quick": [{"n": 1, "has1": 0, "_label": "1-chunk,<=64KiB"}, {"n": 1, "has1": 0, "l1_min": K + 1, "ln_max": 2 * K, "_label": "1-chunk,>64KiB"},
+                         {"n": 1, "has1": 1, "_label": "1-chunk,share-1-stored"}]
+                        + [{"n": 2, "has1": 0, "conflict": c, "shape": sh, "_label": "2-chunks,%s,second-%s" % (cn, shn)} for (c, cn) in _SOURCES for (sh, shn) in _SHAPES]
+                        + [{"n": 1, "has1": 0, "ln_min": 0, "ln_max": 1, "_label": "length-0-or-1"}],
+               "thorough": [{"n": 1, "has1": h, "_label": "1-chunk,has1=%d" % h} for h in (0, 1)]
+                           + [{"n": 2, "has1": 0, "conflict": c, "shape": sh, "_label": "2-chunks,%s,second-%s" % (cn, shn)} for (c, cn) in _SOURCES for (sh, shn) in _SHAPES]
+                           + [{"n": 3, "has1": 0, "conflict": 0, "shape": sh, "ln_max": K, "_label": "3-chunks,second-%s" % shn} for (sh, shn) in _SHAPES]
+                           + [{"n": 1, "has1": 0, "ln_min": 0, "ln_max": 1, "_label": "length-0-or-1"}]},
+        desc="allocate_buckets({0,1}) (share 1 optionally stored already) then 1-2 (thorough: 3) chunks with symbolic (offset, length <= 2*65536), any order, "
+             "overlapping, optionally from another source (conflict), then close() when complete, through _HTTPStorageServer.allocate_buckets / _HTTPBucketWriter / "
+             "StorageClientImmutables.create + write_share_chunk / HTTPServer.allocate_buckets + write_share_data / UploadsInProgress versus "
+             "_StorageServer.allocate_buckets / FoolscapBucketWriter.remote_write + remote_close: same already-have / allocated sets; each chunk accepted or refused alike "
+             "(conflict with different bytes, beyond the allocated size); the HTTP `finished` flag after each chunk is true exactly when the written ranges cover "
+             "[0, size) (independent interval-union model), the share is finalised exactly then and close() fires exactly then; `required` is exactly the set of unwritten "
+             "bytes (probe); same visible shares and byte-identical file system afterwards",
+        outside="a refused chunk longer than 65536 bytes (class rejected-chunk-longer-than-64KiB, see report) and zero-length chunks (class zero-length-write)"),
+    # ---- read-test-write ---------------------------------------------------------------------------------------------------
+    chx("rtw_marshalling", "C31_h", "h_rtw_marshalling", timeout=T, bounds=_b(),
+        desc="slot_testv_and_readv_and_writev through both paths onto a RECORDING storage server: 8 request shapes (0-2 shares incl. share numbers 0/1/3/7/200/255, "
+             "0-2 test vectors, 0-2 write vectors, 0-2 read vectors, new_length None or a number) with every offset / size / new_length an unbounded symbolic integer: "
+             "both paths call StorageServer.slot_testv_and_readv_and_writev exactly once with (storage index, the three secrets, the caller's vectors with the b'eq' "
+             "operator, read vector, renew_leases=True); the server's (success, {share: [data]}) comes back unchanged; BadWriteEnablerError -> RemoteException"),
+    chx("rtw_bad_enabler", "C31_h", "h_rtw_bad_enabler", timeout=T, bounds=_b(),
+        desc="real containers made with the right / another write enabler (shares 0 and 2), request with the right / wrong one, optionally creating share 1: both "
+             "paths fail exactly when some existing share was made with a different enabler, nothing is modified then; otherwise same state"),
+    chx("rtw", "C31_h", "h_rtw", timeout=T, bounds=_b(),
+        cases={"quick": [{"vary": "write", "nlkind": 0, "has2": 0, "create1": 0, "renewing": 0, "wshape": w, "_label": "write-" + n}
+                         for (w, n) in ((0, "inside"), (1, "extending"), (2, "beyond-the-end"))] + [
+                         {"vary": "test", "nlkind": 0, "has2": 0, "create1": 1, "renewing": 1, "dl": 100, "_label": "test,create-share-1,renew"},
+                         {"vary": "read", "nlkind": 0, "has2": 1, "create1": 0, "renewing": 0, "dl": 100, "_label": "read,2-shares"},
+                         {"vary": "new-length", "nlkind": 2, "has2": 0, "create1": 0, "renewing": 0, "dl": 100, "_label": "new-length-n"},
+                         {"vary": "none", "nlkind": 1, "has2": 1, "create1": 0, "renewing": 0, "dl": 100, "_label": "new-length-0-deletes"}],
+               "thorough": [{"vary": "write", "nlkind": 0, "has2": 0, "create1": 0, "renewing": 0, "wshape": w, "_label": "write-" + n}
+                            for (w, n) in ((0, "inside"), (1, "extending"), (2, "beyond-the-end"))] + [
+                            {"vary": "test", "nlkind": 0, "has2": 0, "create1": 1, "renewing": 1, "_label": "test,create-share-1,renew"},
+                            {"vary": "read", "nlkind": 0, "has2": 1, "create1": 0, "renewing": 0, "_label": "read,2-shares"},
+                            {"vary": "new-length", "nlkind": 2, "has2": 0, "create1": 0, "renewing": 0, "_label": "new-length-n"},
+                            {"vary": "none", "nlkind": 1, "has2": 1, "create1": 0, "renewing": 0, "_label": "new-length-0-deletes"}]},
+        desc="slot_testv_and_readv_and_writev through both paths onto the REAL StorageServer and MutableShareFile containers, one part of the request symbolic per case "
+             "(write vector on a symbolic container; test vector length and specimen; read vector and probe; new_length), the rest concrete: same success flag (== the "
+             "test vector's outcome), same read data (the data before the write), same file system afterwards incl. the renewed / added lease, created and deleted shares"),
+    # ---- listing and leases -------------------------------------------------------------------------------------------------
+    chx("list_lease", "C31_h", "h_list_lease", timeout=T, bounds=_b(),
         cases=[{"mutable": 0, "_label": "immutable"}, {"mutable": 1, "_label": "mutable"}],
-        desc="..."),
+        desc="share listing (get_buckets; for mutables slot_readv with empty share list and empty read vector) and add_lease(storage index, renew, cancel) through both "
+             "paths on symbolic containers: shares 0 and 2 present or not, a non-share file in the bucket directory, the caller's lease already present (renewal) or not "
+             "(addition), symbolic free space: same share numbers; add_lease returns None on both or fails on both (no space); nothing changes without shares (HTTP 404 "
+             "is swallowed); byte-identical file system afterwards; share 0 then carries exactly one lease with the caller's secrets expiring 31 days from now"),
 ]
